@@ -313,6 +313,19 @@ class IterationRangeShapeMapper(LokiIdentityMapper):
             (s.lower, s.upper, s.step) if isinstance(s, sym.Range) else (sym.IntLiteral(1), s)
         )
 
+    @classmethod
+    def _qualify_range(cls, d, s):
+        """ Fill the omitted bounds of range index ``d`` from the shape entry ``s`` """
+        if d.lower is not None and d.upper is not None:
+            return d
+        full = cls._shape_to_range(s)
+        if d == ':':
+            return full
+        return sym.RangeIndex((
+            full.lower if d.lower is None else d.lower,
+            full.upper if d.upper is None else d.upper, d.step
+        ))
+
     def map_array(self, expr, *args, **kwargs):
         """ Replace ``:`` range indices with ``1:shape`` vector indices """
 
@@ -320,9 +333,10 @@ class IterationRangeShapeMapper(LokiIdentityMapper):
         if not expr.dimensions and expr.shape:
             expr = expr.clone(dimensions=tuple(sym.RangeIndex((None, None)) for _ in expr.shape))
 
-        # Derive fully qualified bounds for ``:``
+        # Derive fully qualified bounds for ``:`` and complete half-open
+        # ranges like ``:n`` or ``2:`` from the shape
         new_dims = tuple(
-            self._shape_to_range(s) if isinstance(d, sym.RangeIndex) and d == ':' else d
+            self._qualify_range(d, s) if isinstance(d, sym.RangeIndex) else d
             for i, d, s in zip(count(), expr.dimensions, as_tuple(expr.shape))
         )
         # make sure it is not a inline call that was misread as array access ...
